@@ -304,6 +304,11 @@ class Interp:
         if m:
             fields = [self.operand(fr, f.split(':', 1)[1]) for f in split_top(m.group(2))]
             return Struct(m.group(1), fields)
+        if s.startswith('(') and s.endswith(')') and ',' in s and not re.match(r'^\(\*?_\d+[.)]', s):
+            parts = split_top(s[1:-1])
+            if len(parts) >= 2 and all(re.match(r'^(copy |move |const )', x.strip()) for x in parts if x.strip()):
+                # tuple aggregate: (copy _2, move _7)
+                return Struct('tuple', [self.operand(fr, x) for x in parts if x.strip()])
         return self.operand(fr, s)
 
     def make_ref(self, fr, p):
@@ -392,9 +397,153 @@ class Interp:
         if fname == 'core::f64::<impl f64>::max': return z3.If(z3.fpIsNaN(a[0]), a[1], z3.If(z3.fpIsNaN(a[1]), a[0], z3.If(z3.fpGEQ(a[0], a[1]), a[0], a[1])))
         if ' as Iterator>::map::<' in fname or ' as Iterator>::cloned::<' in fname: return a[0]
         if fname.startswith('Arguments::') or fname.startswith('core::fmt::') or fname.startswith('std::fmt::'): return Opaque('fmt')
+        g = self.generic_map_call(fr, fname, a)
+        if g is not None: return g[0]
         g = self.generic_int_call(fname, a)
         if g is not None: return g
+        loc = self.find_local_fn(fname)
+        if loc is not None:
+            # a (private) function of the crate itself, e.g. a helper a refactoring extracted: interpret its MIR
+            return self.call_local_merged(loc, a, fr)
         raise Exception('no model for call ' + fname)
+
+    # ---- HashMap entry / retain idioms with closures (generic over the K-key map contract)
+    def closure_by_span(self, fname):
+        m = re.search(r'::<(\{closure@[^}]*\})>$', fname)
+        if not m:
+            return None
+        c = [f for n, f in self.fns.items() if '{closure#' in n and m.group(1) in f.sig]
+        return c[0] if len(c) == 1 else None
+
+    def run_closure_cells(self, clo, cells, argorder):
+        """Run a closure whose &mut arguments live in a scratch world `cells` (so that forked paths keep their own copies).
+        argorder: [('ref', cellname) | ('val', value)]. -> (merged return value, merged cells, panic condition)"""
+        sub = Interp(self.fns, self.K)
+        holder = {'locals': dict(cells)}
+        sub.world = holder
+        argv = [Ref((('local', holder, x[1]), [])) if x[0] == 'ref' else x[1] for x in argorder]
+        res = sub.run(clo, argv, z3.BoolVal(True))
+        pan = z3.BoolVal(False)
+        ret, after = None, None
+        for pc, kind, v, snap in res:
+            if kind == 'panic':
+                pan = z3.Or(pan, pc)
+                continue
+            snap = {k: snap[k] for k in cells}
+            if after is None:
+                ret, after = v, snap
+            else:
+                ret = ite(pc, v, ret) if ret is not None else None
+                after = {k: ite(pc, snap[k], after[k]) for k in after}
+        return ret, after, z3.simplify(pan)
+
+    def generic_map_call(self, fr, fname, a):
+        K = self.K
+        m = re.search(r"Entry::<'_, [^>]*>::(and_modify|or_insert_with)::<\{closure@", fname)
+        if m:
+            clo = self.closure_by_span(fname)
+            if clo is None:
+                return None
+            e = a[0]
+            mp = self.read_ref(e.mapref)
+            pres = self.map_present(mp, e.key)
+            cur = mp.vals[K - 1]
+            for k in range(K - 2, -1, -1):
+                cur = ite(e.key == k, mp.vals[k], cur)
+            env = a[1]
+            if m.group(1) == 'and_modify':
+                _, after, pan = self.run_closure_cells(clo, {'v': copyval(cur), 'env': env}, [('val', env) if clo.sig.split('_1: ')[1].lstrip().startswith('{closure') else ('ref', 'env'), ('ref', 'v')])
+                bad = z3.simplify(z3.And(self.cur_pc, pres, pan))
+                if not z3.is_false(bad): self.results.append((bad, 'panic', 'in and_modify closure: overflow', None))
+                self.cur_pc = z3.simplify(z3.And(self.cur_pc, z3.Not(z3.And(pres, pan))))
+                newv = after['v']
+                self.write_ref(e.mapref, MapObj(K, mp.present, [ite(z3.And(pres, e.key == k), newv, mp.vals[k]) for k in range(K)]))
+                return (e,)
+            ret, _, pan = self.run_closure_cells(clo, {'env': env}, [('val', env) if clo.sig.split('_1: ')[1].lstrip().startswith('{closure') else ('ref', 'env')])
+            vac = z3.Not(pres)
+            bad = z3.simplify(z3.And(self.cur_pc, vac, pan))
+            if not z3.is_false(bad): self.results.append((bad, 'panic', 'in or_insert_with closure: overflow', None))
+            self.cur_pc = z3.simplify(z3.And(self.cur_pc, z3.Not(z3.And(vac, pan))))
+            self.write_ref(e.mapref, MapObj(K, [z3.Or(mp.present[k], e.key == k) for k in range(K)], [ite(z3.And(vac, e.key == k), ret, mp.vals[k]) for k in range(K)]))
+            return (Ref((('mapval', e.mapref, e.key), [])),)
+        m = re.search(r"Entry::<'_, [^>]*>::or_insert$", fname)
+        if m:
+            e = a[0]
+            mp = self.read_ref(e.mapref)
+            vac = z3.Not(self.map_present(mp, e.key))
+            self.write_ref(e.mapref, MapObj(K, [z3.Or(mp.present[k], e.key == k) for k in range(K)], [ite(z3.And(vac, e.key == k), a[1], mp.vals[k]) for k in range(K)]))
+            return (Ref((('mapval', e.mapref, e.key), [])),)
+        if re.match(r'^HashMap::<.*>::retain::<\{closure@', fname):
+            clo = self.closure_by_span(fname)
+            if clo is None:
+                return None
+            mp = self.read_ref(a[0])
+            env = a[1]
+            pres, vals = [], []
+            for k in range(K):
+                keep, after, pan = self.run_closure_cells(clo, {'env': env, 'k': bv(k), 'v': copyval(mp.vals[k])}, [('ref', 'env'), ('ref', 'k'), ('ref', 'v')])
+                bad = z3.simplify(z3.And(self.cur_pc, mp.present[k], pan))
+                if not z3.is_false(bad): self.results.append((bad, 'panic', 'in retain closure: overflow', None))
+                self.cur_pc = z3.simplify(z3.And(self.cur_pc, z3.Not(z3.And(mp.present[k], pan))))
+                pres.append(z3.And(mp.present[k], keep))
+                vals.append(after['v'])
+            self.write_ref(a[0], MapObj(K, pres, vals))
+            return (Opaque('unit'),)
+        return None
+
+    # ---- crate-local callees (generic): interpret the callee's MIR, merge its return paths back into one state
+    def find_local_fn(self, fname):
+        m = re.match(r'^<?(\w+)(?:::<[^:]*>)?(?: as [^>]*>)?::(\w+)(?:::<.*>)?$', fname)
+        if not m:
+            m0 = re.match(r'^(\w+)(?:::<.*>)?$', fname)   # free function of the crate
+            if not m0:
+                return None
+            ty, meth = '', m0.group(1)
+        else:
+            ty, meth = m.group(1), m.group(2)
+        cands = [f for n, f in self.fns.items() if re.search(r'(?:>|::)' + re.escape(meth) + r'$', n) and '{closure' not in n]
+        if len(cands) > 1:
+            c2 = [f for f in cands if ty.lower() in f.name.lower()]
+            cands = c2 or cands
+        return cands[0] if len(cands) == 1 else None
+
+    def sub_interp(self, fr):
+        s_ = self.__class__(self.fns, self.K)
+        for k in ('world', 'shared', 'cms_ret', 'merge_diamonds'):
+            if hasattr(self, k):
+                setattr(s_, k, getattr(self, k))
+        s_.caller = fr
+        return s_
+
+    def call_local_merged(self, fn, argvals, fr):
+        sub = self.sub_interp(fr)
+        res = sub.run(fn, argvals, self.cur_pc)
+        rets = [(pc, v, snap) for pc, kind, v, snap in res if kind == 'ret']
+        for pc, kind, v, snap in res:
+            if kind == 'panic':
+                self.results.append((pc, kind, v, snap))
+        if not rets:
+            raise Exception('no return path in %s' % fn.name)
+        pc_all = z3.simplify(z3.Or([pc for pc, _, _ in rets]))
+        val = rets[-1][1]
+        world = dict(rets[-1][2]) if rets[-1][2] is not None else None
+        cal = world.pop('__caller__') if world is not None and '__caller__' in world else None
+        for pc, v, snap in reversed(rets[:-1]):
+            val = ite(pc, v, val) if val is not None else None
+            if world is not None:
+                snap = dict(snap)
+                c2 = snap.pop('__caller__', None)
+                world = {k: ite(pc, snap[k], world[k]) for k in world}
+                if cal is not None and c2 is not None:
+                    cal = {k: (ite(pc, c2[k], cal[k]) if k in c2 and k in cal else cal.get(k, c2.get(k))) for k in set(cal) | set(c2)}
+        if world is not None:
+            self.world['locals'].clear()
+            self.world['locals'].update(world)
+        if cal is not None:
+            fr['locals'].clear()
+            fr['locals'].update(cal)
+        self.cur_pc = pc_all
+        return val
 
     def generic_int_call(self, fname, a):
         """std integer helpers that refactorings commonly introduce (so that a changed tree is decided, not inconclusive)"""
@@ -403,6 +552,15 @@ class Interp:
         if m and len(a) == 2 and z3.is_bv(a[0]):
             lt = z3.ULT(a[0], a[1]) if not re.search(r'<i', fname) else (a[0] < a[1])
             return z3.If(lt, a[0], a[1]) if m.group(1) == 'min' else z3.If(lt, a[1], a[0])
+        m = re.match(r'^<([ui])(?:\d+|size) as Ord>::(min|max)$', fname)
+        if m and len(a) == 2 and z3.is_bv(a[0]) and z3.is_bv(a[1]):
+            lt = (a[0] < a[1]) if m.group(1) == 'i' else z3.ULT(a[0], a[1])
+            # Ord::max returns the second argument when equal, Ord::min the first: indistinguishable for integers
+            return z3.If(lt, a[0], a[1]) if m.group(2) == 'min' else z3.If(lt, a[1], a[0])
+        m = re.match(r'^<([ui])(?:\d+|size) as Ord>::clamp$', fname)
+        if m and len(a) == 3 and all(z3.is_bv(x) for x in a):
+            lt = (lambda p, q: p < q) if m.group(1) == 'i' else z3.ULT
+            return z3.If(lt(a[0], a[1]), a[1], z3.If(lt(a[2], a[0]), a[2], a[0]))
         m = re.match(r'^core::num::<impl ([ui])(\d+|size)>::(\w+)$', fname)
         if not m or not a or not z3.is_bv(a[0]):
             return None
